@@ -231,6 +231,9 @@ func (a *LTA) drive(name string, fn *ssa.Function, s LSt, live map[LSt]bool, pan
 		if name == "spawn" && (o.st.Inc == incNone || o.st.Inc == incNew || o.st.Inc == incInited) {
 			a.record(name, lfinding{Kind: "spawn-returns-before-Started", Stack: fn.Name(), State: o.st.String()})
 		}
+		if name == "spawn" && !o.st.Open && !o.st.Dead && o.st.Inc == incStarted {
+			a.record(name, lfinding{Kind: "spawn-leaves-inbox-closed", Stack: fn.Name(), State: o.st.String()})
+		}
 		if o.st.Dead && o.st.Inc != incStopped && o.st.Inc != incNone {
 			a.record(name, lfinding{Kind: "terminated-without-Stopped", Stack: fn.Name(), State: o.st.String()})
 		}
